@@ -83,22 +83,25 @@ public:
         QMutexLocker locker(&m_mutex);
         QTLOGGER_VERIF_POINT("oth.reset.locked");
 
-        if (!m_thread)
-            return;
+        // Wait until the backlog is delivered. Qt delivers posted events in the logger thread only
+        // while a QCoreApplication exists; without one the backlog cannot drain there and is
+        // processed below instead - but a message the thread is working on right now is still
+        // waited for. If another caller is already stopping the thread, wait until it is done:
+        // nobody returns from a stop before the backlog is delivered.
+        for (;;) {
+            if (!m_thread)
+                return;
 
-        // Qt delivers posted events in the logger thread only while a QCoreApplication exists;
-        // without one the backlog cannot drain there and is processed below instead - but a
-        // message the thread is working on right now is still waited for
-        while (m_pendingCount.loadAcquire() > 0
-               && (QCoreApplication::instance() || m_processing.loadAcquire() != 0)) {
+            const bool backlog = m_pendingCount.loadAcquire() > 0
+                    && (QCoreApplication::instance() || m_processing.loadAcquire() != 0);
+            if (!m_stopping && !backlog)
+                break;
+
             locker.unlock();
             QTLOGGER_VERIF_POINT("oth.reset.drain");
             QThread::msleep(10);
             locker.relock();
         }
-
-        if (!m_thread || m_stopping)
-            return; // another caller stopped (or is stopping) the thread meanwhile
 
         // The logger thread may itself be logging (a Qt warning, a sink that logs) and must not
         // block on this mutex while we wait for it to finish: from here on process() only queues
